@@ -1231,7 +1231,11 @@ func (s *netSim) finalNet() {
 	if s.np.Sync && s.np.CorruptPM == 0 && !s.uncovered {
 		// blocks KEEP being produced: no long pause between two heights, nor after the last one
 		gap := max(s.maxGap, time.Duration(s.np.DurationMS)*time.Millisecond-s.lastBlockAt)
+		// (the block time is a policy value the workload's committee transactions may raise: the bounds follow it)
+		bt := time.Duration(max(blockTimeMS, int(s.nodes[0].n.BC.GetMillisecondsPerBlock()))) * time.Millisecond
 		switch {
+		case bt > blockTimeMS*time.Millisecond && gap <= 8*bt:
+			r.out.Probes["sync_block_time_raised"]++
 		case gap <= 2*blockTimeMS*time.Millisecond:
 			r.out.Probes["sync_max_block_gap_le_2"]++
 		case gap <= 4*blockTimeMS*time.Millisecond:
